@@ -10,7 +10,7 @@ from ufoverif.runner import Discard, Violation, guard
 ID = "C19"
 RULE = (
     "case = compatible master family on one axis (2-4 masters incl. intermediate ones, optional axis map, optional sparse layer master for some glyphs) or two axes "
-    "(four corner masters); line/cubic/quadratic outlines, composites, anchors, heights, per-master ascender; kerning with group pairs, exceptions, pairs missing in some "
+    "(four corner masters); line/cubic/quadratic outlines, composites, anchors, heights, per-master ascender, a glyph left empty in one non-default master (placeholder, skipped for that glyph as documented); kerning with group pairs, exceptions, pairs missing in some "
     "masters, a master without any kerning, pairs with both sides among two swapped glyphs; kerning and non-kerning groups; optional rule swapping two glyphs on a "
     "sub-range; round_geometry on/off; history = 1-4 generate_instance calls on ONE Instantiator at master locations, axis extremes and interior points in any order; "
     "oracle = local piecewise-linear / bilinear blend of the masters for every coordinate, advance, height, anchor, component offset, ascender and for the UFO-semantic "
@@ -74,6 +74,12 @@ def _case(draw):
         simple = [g["name"] for g in spec["glyphs"] if not g.get("components")]
         if simple:
             fam["sparse"] = {"k": 6, "loc": {"Weight": draw(st.sampled_from([150, 650, 850]))}, "names": [draw(st.sampled_from(simple))]}
+    if shape in ("three", "four") and draw(st.sampled_from([True, False, False])):
+        # a glyph left completely empty in one non-default master: the instantiator documents that such a placeholder master is skipped for that glyph
+        comp = [g["name"] for g in spec["glyphs"] if g.get("components")]
+        tgt = draw(st.sampled_from(comp * 2 + [g["name"] for g in spec["glyphs"] if g.get("contours") or g.get("components")])) if any(g.get("contours") or g.get("components") for g in spec["glyphs"]) else None
+        if tgt is not None and not (fam.get("sparse") and tgt in fam["sparse"]["names"]):
+            fam["tweaks"] = [{"kind": "empty-glyph", "glyph": tgt, "master": draw(st.integers(2, len(masters) - 1))}]  # an interior master: the remaining ones still span the axis, so the reference stays piecewise linear
     wmin, wmax = (0, 1000)
     if draw(st.booleans()):
         lo = draw(st.sampled_from([0, 300, 600]))
@@ -295,6 +301,11 @@ def run_case(case, ctx):
             g = numeric["glyphs"][n]
             ms = [sp["glyphs"][gi_] for sp in specs]
             locs_n = list(mlocs)
+            for tw in fam.get("tweaks", []):
+                if tw["kind"] == "empty-glyph" and tw["glyph"] == n:
+                    # documented: an empty source glyph is skipped when the default's glyph is not empty
+                    ms = [m for i_, m in enumerate(ms) if i_ != tw["master"]]
+                    locs_n = [l for i_, l in enumerate(locs_n) if i_ != tw["master"]]
             if sparse and n in sparse["names"]:
                 ms = ms + [next(x for x in sparse_spec["glyphs"] if x["name"] == n)]
                 locs_n = locs_n + [sparse["loc"]]
@@ -355,6 +366,10 @@ def run_case(case, ctx):
         ctx.label("intermediate-master")
     if sparse:
         ctx.label("sparse-master")
+    if any(t["kind"] == "empty-glyph" for t in fam.get("tweaks", [])):
+        ctx.label("empty-placeholder-glyph-in-a-master")
+        if any(t["kind"] == "empty-glyph" and any(g["name"] == t["glyph"] and g.get("components") for g in fam["base"]["glyphs"]) for t in fam["tweaks"]):
+            ctx.label("empty-placeholder-of-a-composite")
     if rounding:
         ctx.label("round_geometry")
     if any(len(v) == len(specs[0]["kerning"]) for v in (fam.get("drop_kerning") or {}).values()):
